@@ -1,9 +1,83 @@
 import AioModel.Wire
-/-! Driver commands of property C08 (stub until the model exists). -/
+import AioModel.C08
+/-!
+Driver commands of property C08.
+
+`run <limit> <op>…` → one reply: the per-step projections joined by a space.
+Ops: `F|hex` feed_data · `B` begin chunk · `E` end chunk · `Z` feed_eof · `X|id` set_exception ·
+`D` connection lost · `s|n` set_read_chunk_size · `r|n|it` read(n) (`n` decimal or `all`) ·
+`a|it` readany · `u|sephex|max|it` readuntil (max 0 = None) · `x|n` readexactly · `c|it` readchunk ·
+`n|k` read_nowait (`k` decimal or `all`) · `w` resume the parked coroutine.  `it` = 1 when called
+through the async iterator.
+Projection of one step:
+`out;evs;size;cursor;total;paused;tpaused;nbufs;off;splits;low;high;waiter;eof`.
+-/
 namespace Aio.Driver.C08
-open Aio Aio.Wire
+open Aio Aio.Wire Aio.C08
+
+def parseN (s : String) : Option (Option Nat) :=
+  if s == "all" then some none else s.toNat?.map some
+
+def parseOp (s : String) : Option Op :=
+  match s.splitOn "|" with
+  | ["F", d] => do pure (.feed (← parseHex d))
+  | ["B"] => some .beginChunk
+  | ["E"] => some .endChunk
+  | ["Z"] => some .feedEof
+  | ["X", e] => do pure (.setExc (← e.toNat?))
+  | ["D"] => some .disconnect
+  | ["s", n] => do pure (.setChunkSize (← n.toNat?))
+  | ["r", n, it] => do pure (.read (← parseN n) (parseBool it))
+  | ["a", it] => some (.readAny (parseBool it))
+  | ["u", sep, m, it] => do pure (.readUntil (← parseHex sep) (← m.toNat?) (parseBool it))
+  | ["x", n] => do pure (.readExactly (← n.toNat?))
+  | ["c", it] => some (.readChunk (parseBool it))
+  | ["n", k] => do pure (.readNowait (← parseN k))
+  | ["w"] => some .wakeup
+  | _ => none
+
+def showErr : Err → String
+  | .exc e => s!"exc{e}"
+  | .runtime => "runtime"
+  | .assertion => "assertion"
+  | .value => "value"
+  | .lineTooLong => "linetoolong"
+  | .fuel => "MODEL-FUEL"
+
+def showOut : Out → String
+  | .ok => "ok"
+  | .data b => "data:" ++ showHex b
+  | .chunk b e => "chunk:" ++ showHex b ++ ":" ++ showBool e
+  | .stop => "stop"
+  | .blocked => "blocked"
+  | .err e => "err:" ++ showErr e
+  | .incomplete p n => s!"incomplete:{showHex p}:{n}"
+  | .bad => "bad"
+
+def showEvs (l : List Ev) : String :=
+  if l.isEmpty then "-" else String.ofList (l.map (fun e => match e with | .pause => 'P' | .resume => 'R'))
+
+def showSplits : Option (List Nat) → String
+  | none => "none"
+  | some [] => "-"
+  | some l => ",".intercalate (l.map toString)
+
+def proj (s : S) (o : Out) : String :=
+  ";".intercalate [showOut o, showEvs s.evs, toString s.size, toString s.cursor, toString s.total,
+    showBool s.paused, showBool s.tpaused, toString s.bufs.length, toString s.off, showSplits s.splits,
+    toString s.low, toString s.high, showBool s.waiter, showBool s.eof]
+
+def runProj (s : S) : List Op → List String
+  | [] => []
+  | op :: ops => let (s, o) := step s op; proj s o :: runProj s ops
 
 def handle : List String → String
+  | "run" :: limit :: ops =>
+    match limit.toNat?, ops.mapM parseOp with
+    | some limit, some ops =>
+      let s := init limit
+      " ".intercalate (s!"init;{s.low};{s.high};{s.lowChunks};{s.highChunks}" :: runProj s ops)
+    | _, _ => "bad-op"
   | _ => "bad-op"
 
 end Aio.Driver.C08
